@@ -300,7 +300,7 @@ impl Prop for C16 {
         }
         let grid_cases = ctx.stats.borrow().evaluations;
         ctx.extra_add("grid_numbers", grid_cases);
-        let cases = ctx.tier.pick(150_000u32, 3_000_000u32);
+        let cases = ctx.tier.pick(100_000u32, 2_000_000u32);
         ctx.run_bytes("rand", cases, 96, |ctx, bytes| {
             let z = gen_number(bytes);
             let mut fails = vec![];
